@@ -365,7 +365,7 @@ def order_preserving(e, has_pool):
 
 
 CLAIM = {
-    "text": "Decides the structural conditions under which batch evaluation equals pointwise evaluation in order and is counted once: the evaluation counter is written only by the two evaluators (+= batch size, exactly once on every path) and the resume hook; the functions handed to the batch evaluator never touch it; the user's log_likelihood is called (or passed as a value) only inside Model and the pool wrapper; unit-hypercube batches are mapped by from_unit_hypercube exactly when unit_hypercube is true and the mapped batch is what is evaluated; each of the six pool x vectorised x chunksize branches of batch_evaluate_function matches a grammar of order-preserving split (array_split / chunks / iteration), map (map / pool.map / comprehension) and combine (concatenate / array().flatten()) over the whole batch, with no unordered or async pool primitive; the function / pool-wrapper / vectorisation-flag / probe table is consistent for likelihood, prior and unit-hypercube prior. The vectorisation probe that licenses the batch path compares batch and pointwise values at round-off level: its tolerances are literals <= 1e-12 or a small multiple of the dtype's eps, not re-bound, and no caller loosens them (C10.5). Every path through a counting evaluator counts its points by exactly one increment or one delegation to the sibling evaluator, never both (C10.1). A final conversion of the batch results keeps the function's own dtype unless the caller asks for one (C10.3).",
+    "text": "Decides the structural conditions under which batch evaluation equals pointwise evaluation in order and is counted once: the evaluation counter is written only by the two evaluators (+= batch size, exactly once on every path) and the resume hook; the functions handed to the batch evaluator never touch it; the user's log_likelihood is called (or passed as a value) only inside Model and the pool wrapper; unit-hypercube batches are mapped by from_unit_hypercube exactly when unit_hypercube is true and the mapped batch is what is evaluated; each of the six pool x vectorised x chunksize branches of batch_evaluate_function matches a grammar of order-preserving split (array_split / chunks / iteration), map (map / pool.map / comprehension) and combine (concatenate / array().flatten()) over the whole batch, with no unordered or async pool primitive; the function / pool-wrapper / vectorisation-flag / probe table is consistent for likelihood, prior and unit-hypercube prior. The vectorisation probe that licenses the batch path compares batch and pointwise values at round-off level: its tolerances are literals <= 1e-12 or a small multiple of the dtype's eps, not re-bound, and no caller loosens them (C10.5). Every path through a counting evaluator counts its points by exactly one increment or one delegation to the sibling evaluator, never both (C10.1). A final conversion of the batch results keeps the function's own dtype unless the caller asks for one (C10.3). The three batch wrappers return batch_evaluate_function(...) itself (dtype cast only; no clip, no nan_to_num with its default +/-inf replacement, no masked rewrite of non-NaN entries) (C10.4). The slice form of the chunking still yields one (empty) chunk for an empty batch.",
     "note": "Trusts the ordering guarantees of pool.map, map, np.array_split and np.concatenate. Value equality of a user's vectorised and pointwise likelihood, remainder arithmetic of array_split over all (n, chunksize) and real pool scheduling are not decided.",
 }
 
